@@ -116,6 +116,15 @@ namespace sim
 		m_handler = std::move(handler);
 		if (m_expired)
 		{
+			if (m_expiration_time > chrono::high_resolution_clock::now())
+			{
+				// the timer is not queued (it was cancelled, or an earlier wait
+				// was aborted) but its expiry has not been reached yet. Queue it
+				// again rather than completing the wait ahead of time
+				m_expired = false;
+				m_io_service->add_timer(this);
+				return;
+			}
 			fire(boost::system::error_code());
 			return;
 		}
